@@ -114,6 +114,22 @@ def step (d : DS) (ws : List String) : DS × String :=
     | .panic => (d, "panic")
     | .gate _ => (d, s!"retries={if d.waiting > 0 then 1 else 0}")
     | .none => (d, "retries=0")
+  | "try-raced" :: l :: js =>
+    -- the acquire script of every key runs; the listed keys are deleted by a third party right after their script
+    let v := d.nextVal
+    let del := js.filterMap String.toNat?
+    let s1 := (List.range d.sys.n).foldl (fun t i =>
+      let t1 := next t (.acq v i)
+      if del.contains i && t1.regs i == some v then next t1 (.extdel i) else t1) d.sys
+    -- try() counts the acquisitions it made and returns the context; the monitors find out afterwards
+    let s2 := next s1 (.ret v)
+    let ok := live s2 v
+    let s3 := if ok then s2 else
+      let s' := next s2 (.release v)
+      (runningIdx s' v).foldl (fun t i => next t (.mon v i)) s'
+    fin { d with sys := s3, nextVal := v + 1,
+                 holders := if ok then d.holders ++ [v] else d.holders,
+                 hlock := if ok then (v, l.toNat?.getD 0) :: d.hlock else d.hlock }
   | [op, _, v, i] =>
     let v := v.toNat?.getD 0
     let i := i.toNat?.getD 0
